@@ -927,7 +927,8 @@ CHECKS = {
                           'FastPasta.C13.lane_count_iff_ib', 'FastPasta.C13.lane_count_iff_ml', 'FastPasta.C13.lane_count_iff_ol', 'FastPasta.C13.frame_verdict_exact', 'FastPasta.C13.go_spec',
                           # tie by translation: the model's decoder step = the function generated from the Rust source on this run
                           'FastPasta.C13.step_eq_src', 'FastPasta.C13.decodeLane_eq_src', 'FastPasta.C13.action_table', 'FastPasta.C13.guards_eq_src',
-                          'FastPasta.C13.src_padding_arm_unreachable']),
+                          'FastPasta.C13.src_padding_arm_unreachable',
+                          'FastPasta.C13.readout_flags_src']),
     'C20': dict(modules=['FastPasta.Props.C20'], run=run_c20, needs_harness=False, corr='run_custom',
                 theorems=['FastPasta.C20.cdps_iff', 'FastPasta.C20.pht_iff', 'FastPasta.C20.absent_is_silent', 'FastPasta.C20.finalize_default',
                           'FastPasta.C20.rdh_version_iff', 'FastPasta.C20.period_eq', 'FastPasta.C20.period_iff', 'FastPasta.C20.no_period_silent',
